@@ -1146,7 +1146,7 @@ bool FPProc::OpenDocument(string pathname)
                 {
                     int bc;
 
-                    sscanf(s,"%lf\t%lf\t%lf\t%lf\t%i\t%lf",
+                    sscnt = sscanf(s,"%lf\t%lf\t%lf\t%lf\t%i\t%lf",
                            &mnode.x,
                            &mnode.y,
                            &mnode.A.re,
@@ -1257,13 +1257,15 @@ bool FPProc::OpenDocument(string pathname)
             }
             else
             {
-                sscanf(s,"%i	%i	%i	%i	%lf",&elm.p[0],&elm.p[1],&elm.p[2],&elm.lbl,&elm.Jprev);
+                // the solver writes the three edge markers between the label and Jprev
+                int edgeMarker[3];
+                sscnt = sscanf(s,"%i	%i	%i	%i	%i	%i	%i	%lf",&elm.p[0],&elm.p[1],&elm.p[2],&elm.lbl,&edgeMarker[0],&edgeMarker[1],&edgeMarker[2],&elm.Jprev);
 
 #ifdef DEBUG_FPPROC
                 printf("s: %s\n", s);
                 //getchar();
 #endif // DEBUG_FPPROC
-                if (sscnt != 5)
+                if (sscnt != 8)
                 {
                     std::string msg = "An error occured while reading mesh nodes section of file, wrong number of inputs ("
                             + std::to_string(sscnt) + ") for element " + std::to_string(i) + ".\n";
